@@ -433,6 +433,7 @@ func c08Eval(w *W, idx int, space string, e *c08E) {
 		w.Report(Finding{Kind: "explain-panic", Key: "explain-panic@" + ex.Site, Input: sql, InputHex: hexs(in), Detail: ex.PanicVal})
 		return
 	}
+	c08Batch(w, idx, sql, ex.Out)
 	impl, ok := c08ImplLines(ex.Out)
 	if !ok {
 		w.Report(Finding{Kind: "precedence", Key: "frame@" + class, Input: sql, InputHex: hexs(in), Detail: "EXPLAIN is not a one-column SELECT frame:\n" + ex.Out})
@@ -510,6 +511,47 @@ var c08Negatable = []string{"0", "1", "7", "9223372036854775807", "9223372036854
 
 // c08Level mirrors the spec's level numbers only to decide where the GENERATOR puts parentheses; whether a tree is
 // well-parenthesised is always the driver's verdict.
+// c08Batch: the tree of an expression must not depend on what else is parsed in the same Parse call. The texts of the last
+// few cases are parsed again as ONE script (`SELECT e1; SELECT e2; …`, the caller of Parse keeps all statements) and every
+// statement must explain exactly as it did alone — allocation pools, scratch buffers or counters that a parser reuses
+// from one statement to the next show up here.
+var c08Ring []struct{ sql, out string }
+
+func c08Batch(w *W, idx int, sql, out string) {
+	if len(sql) > 400 {
+		return
+	}
+	c08Ring = append(c08Ring, struct{ sql, out string }{sql, out})
+	if len(c08Ring) < 6 {
+		return
+	}
+	ring := c08Ring
+	c08Ring = nil
+	var sb strings.Builder
+	for i, c := range ring {
+		if i > 0 {
+			sb.WriteString(";\n")
+		}
+		sb.WriteString(c.sql)
+	}
+	script := sb.String()
+	w.Count("batches")
+	obs := safeParse([]byte(script), 0)
+	if obs.Panicked || obs.Err != nil || len(obs.Stmts) != len(ring) {
+		w.Report(Finding{Kind: "precedence", Key: "batch@rejected", Input: script, InputHex: hexs([]byte(script)),
+			Detail: fmt.Sprintf("each statement parses alone; together: err=%v panicked=%v stmts=%d", obs.Err, obs.Panicked, len(obs.Stmts))})
+		return
+	}
+	// explain AFTER the whole script has been parsed, first statement last
+	for i := len(ring) - 1; i >= 0; i-- {
+		if e := safeExplain(obs.Stmts[i]); e.Panicked || e.Out != ring[i].out {
+			w.Report(Finding{Kind: "precedence", Key: "batch@differs", Input: script, InputHex: hexs([]byte(script)),
+				Detail: fmt.Sprintf("statement %d (%s) explains differently when parsed in one Parse call with the others: %s", i, ring[i].sql, firstLineDiff(ring[i].out, e.Out))})
+			return
+		}
+	}
+}
+
 func c08Level(e *c08E) int {
 	if e.kind != 'b' {
 		return 100
